@@ -56,7 +56,7 @@ func specs() []spec {
 			}
 			return "no-decay"
 		}},
-		{"InstreamFineSediment", "durationInSeconds", [][]float64{{0, 0}, {5e3, 1e3}}, func(v *stepView) budget {
+		{"InstreamFineSediment", "durationInSeconds", [][]float64{{0, 0}, {5e3, 1e3}, {6e7, 1e3}, {4e5, 0}}, func(v *stepView) budget { // the last two initial channel stores exceed the capacity of (some of) the parameter vectors (3e7 kg; 3e5 kg)
 			b := budget{in: (v.in["upstreamMass"] + v.in["lateralMass"] + v.in["reachLocalMass"]) * v.dt, out: (v.out["loadDownstream"] + v.out["loadToFloodplain"]) * v.dt,
 				sBefore: v.before[0] + v.before[1], sAfter: v.after[0] + v.after[1], flush: v.in["reachVolume"]+v.in["outflow"]*v.dt < minVolume}
 			b.hasWorking, b.working = true, v.before[1]+b.in+math.Max(0, v.before[0]-v.after[0])
